@@ -3,28 +3,38 @@
 (* Trace validation for C11.  One trace = one execution on a real PIT /    *)
 (* MPS / SuperNet object:                                                  *)
 (*   [kind |-> "pit"|"mps"|"sn",                                           *)
-(*    gum0, dis0 |-> the gumbel / disable options given to the constructor,*)
+(*    gum0, dis0 |-> PER QUANTISER/COMBINER: the gumbel / disable options  *)
+(*                   its constructor was given,                            *)
 (*    init |-> OBS,                    observation right after construction*)
 (*    ev   |-> << [act |-> CALL, obs |-> OBS, mc |-> MCSTATE] ... >>]      *)
 (* CALL    = [a |-> "train", g] | [a |-> "flag", f, v] | [a |-> "sel", v]  *)
 (*         | [a |-> "upd", temp, hard, gumbel, disable] | [a |-> "fwdbwd"] *)
+(*         | [a |-> "lflag", l, f, v]   layer l: train_<f> / discrete_cost *)
+(*         | [a |-> "lupd", b, temp, hard, gumbel, disable]  quantiser b   *)
+(*         | [a |-> "lsel", b, v]       combiner b: train_selection        *)
 (* OBS     = [all, nas, net |-> sequences of object ids as yielded by      *)
 (*              parameters() / nas_parameters() / net_parameters(),        *)
-(*            p |-> << [id, cls, par, rg, grad] >>  every parameter object *)
-(*              and every frozen mask tensor (par = it is an nn.Parameter),*)
+(*            p |-> << [id, cls, par, rg, grad, own, q, mo] >>  every      *)
+(*              parameter object, every frozen mask tensor and (cls "dc")  *)
+(*              every layer's discrete_cost switch; par = it is an         *)
+(*              nn.Parameter, own = owning layers, q = owning quantiser,   *)
+(*              mo = name of the NasControlMC object it realises ("" none),*)
 (*            flags |-> what the four PIT getters answer,                  *)
-(*            ldc |-> "T"|"F"|"mixed"|"-"  discrete_cost of the layers,    *)
 (*            bwd |-> "ok" | "noloss" (nothing trainable) | "error" | "-", *)
-(*            q |-> << [temp, hard, sampler, live] >> every quantiser /    *)
-(*              combiner (sampler classified by its behaviour)]            *)
+(*            q |-> << [temp, hard, sampler, live, mb] >> every quantiser /*)
+(*              combiner (sampler classified by its behaviour; mb = block  *)
+(*              of NasControlMC it realises, 0 none)]                      *)
 (* MCSTATE = target state of the NasControlMC edge that is being replayed  *)
-(*           ([rg, flags, opt]) or [none |-> TRUE] for free-running traces *)
+(*           ([rg, opt] and, for the class-level machine, flags) or        *)
+(*           [none |-> TRUE] for free-running traces                       *)
 (*                                                                         *)
 (* The walk applies the SAME operators as the state machine (NextRg,       *)
-(* NextFlags, NextOpt, SpecifiedSet, UnspecifiedKept, IsPartition) to the  *)
-(* previous observation and the logged call and requires the logged        *)
-(* post-state to satisfy the call's post-condition and every invariant.    *)
-(* Intended gumbel/disable are hidden state tracked here from the calls.   *)
+(* NextFlags, NextOpt, ArgFor, SpecifiedSet, UnspecifiedKept, IsPartition) *)
+(* to the previous observation OF EACH OBJECT and the logged call and      *)
+(* requires the logged post-state to satisfy the call's post-condition and *)
+(* every invariant: a model-level call must be a pointwise update (the     *)
+(* named thing everywhere, everything else as it was IN THAT layer).       *)
+(* Intended gumbel/disable are hidden state tracked here per quantiser.    *)
 (*                                                                         *)
 (* Verdict (total): "ok" | "C11.<clause> ..." | "known:F07:..." |          *)
 (* "known:F08:..." (bug-compatibility with the Impl = "pinned" operators)  *)
@@ -51,9 +61,6 @@ Drift(msg) == <<1, msg>>
 FirstBad(s, Bad(_)) == IF \E i \in Idx(s) : Bad(s[i])
                        THEN CHOOSE i \in Idx(s) : Bad(s[i]) /\ \A j \in Idx(s) : j < i => ~Bad(s[j])
                        ELSE 0
-
-NoUpd == [a |-> "upd", temp |-> NoT, hard |-> NoB, gumbel |-> NoB, disable |-> NoB]
-ArgOf(a) == IF a.a = "upd" THEN a ELSE NoUpd
 
 (***************************************************************************)
 (* State invariants on one observation                                     *)
@@ -86,7 +93,7 @@ FrozenVerdict(prev, o, a, where) ==
                  \* parameter; a frozen time mask that became trainable is read by forward and cost
                  pinnedlike == \A i \in Idx(o.p) : Frozen(o.p[i].cls) =>
                                   /\ o.p[i].par
-                                  /\ o.p[i].rg = NextRg("pinned", o.p[i].cls, Grp(o, o.p[i].id), prev.p[i].rg, a)
+                                  /\ o.p[i].rg = NextRg("pinned", o.p[i].cls, Grp(o, o.p[i].id), Range(o.p[i].own), o.p[i].q, prev.p[i].rg, a)
                                   /\ (o.p[i].grad = "nz" => o.p[i].rg /\ o.p[i].cls \in {"betaF", "gammaF"})
              IN IF pinnedlike
                 THEN Known("known:F07:" \o what \o ": "
@@ -100,58 +107,61 @@ FrozenVerdict(prev, o, a, where) ==
 (* requires_grad of the non-frozen parameters after the call               *)
 (***************************************************************************)
 RgVerdict(prev, o, a, where) ==
-    LET Exp(i) == NextRg("fixed", o.p[i].cls, Grp(o, o.p[i].id), prev.p[i].rg, a)
+    LET Exp(i) == NextRg("fixed", o.p[i].cls, Grp(o, o.p[i].id), Range(o.p[i].own), o.p[i].q, prev.p[i].rg, a)
         bad == IF \E i \in Idx(o.p) : ~Frozen(o.p[i].cls) /\ o.p[i].rg # Exp(i)
                THEN CHOOSE i \in Idx(o.p) : ~Frozen(o.p[i].cls) /\ o.p[i].rg # Exp(i)
                ELSE 0
-        name == IF a.a = "train" THEN "C11.train-exact" ELSE IF a.a \in {"flag", "sel"} THEN "C11.setter" ELSE "C11.frame"
+        name == IF a.a = "train" THEN "C11.train-exact"
+                ELSE IF a.a \in {"flag", "sel"} THEN "C11.setter"
+                ELSE IF a.a \in {"lflag", "lsel"} THEN "C11.layer-setter" ELSE "C11.frame"
     IN  IF bad = 0 THEN OK
         ELSE Viol(name \o " at " \o where \o ": " \o ToString(o.p[bad]) \o " (group " \o Grp(o, o.p[bad].id)
-                  \o ") expected requires_grad=" \o ToString(Exp(bad)))
+                  \o ") expected " \o (IF o.p[bad].cls = "dc" THEN "discrete_cost=" ELSE "requires_grad=") \o ToString(Exp(bad)))
 
-\* the switch that was written answers the written value; discrete_cost reaches every layer
+\* the model-level switch that was written answers the written value (the per-layer effect, discrete_cost
+\* included, is part of RgVerdict: every layer's switch is an object of class "dc")
 FlagVerdict(kind, o, a, where) ==
     IF kind = "pit" /\ a.a = "flag" /\ o.flags[a.f] # a.v
     THEN Viol("C11.setter at " \o where \o ": getter of " \o a.f \o " answers " \o ToString(o.flags[a.f]))
-    ELSE IF kind = "pit" /\ a.a = "flag" /\ a.f = "dc" /\ o.ldc # (IF a.v THEN "T" ELSE "F")
-    THEN Viol("C11.setter at " \o where \o ": layers' discrete_cost = " \o o.ldc)
     ELSE OK
 
 (***************************************************************************)
 (* Sampling options of every quantiser / combiner; signature of F08        *)
 (***************************************************************************)
+\* g, d : sequences (one entry per quantiser) of the intended gumbel / disable AFTER the call
 OptVerdict(kind, prev, o, a, g, d, where) ==
-    LET arg == ArgOf(a)
-        TH(k) == /\ SpecifiedSet(kind, prev.q[k], o.q[k], arg)
-                 /\ (arg.temp = NoT => o.q[k].temp = prev.q[k].temp)
-                 /\ (arg.hard = NoB => o.q[k].hard = prev.q[k].hard)
-        badset  == IF \E k \in Idx(o.q) : o.q[k].live /\ ~SpecifiedSet(kind, prev.q[k], o.q[k], arg)
-                   THEN CHOOSE k \in Idx(o.q) : o.q[k].live /\ ~SpecifiedSet(kind, prev.q[k], o.q[k], arg) ELSE 0
-        badkept == IF \E k \in Idx(o.q) : o.q[k].live /\ ~UnspecifiedKept(kind, prev.q[k], o.q[k], arg)
-                   THEN CHOOSE k \in Idx(o.q) : o.q[k].live /\ ~UnspecifiedKept(kind, prev.q[k], o.q[k], arg) ELSE 0
-        badsamp == IF \E k \in Idx(o.q) : o.q[k].live /\ o.q[k].sampler # Sampler(g, d)
-                   THEN CHOOSE k \in Idx(o.q) : o.q[k].live /\ o.q[k].sampler # Sampler(g, d) ELSE 0
+    LET Arg(k) == ArgFor(a, k)                       \* the update that reached quantiser k (NoUpd: none)
+        Hit(k) == a.a = "upd" \/ (a.a = "lupd" /\ a.b = k)
+        TH(k) == /\ SpecifiedSet(kind, prev.q[k], o.q[k], Arg(k))
+                 /\ (Arg(k).temp = NoT => o.q[k].temp = prev.q[k].temp)
+                 /\ (Arg(k).hard = NoB => o.q[k].hard = prev.q[k].hard)
+        BadSet(k)  == o.q[k].live /\ ~SpecifiedSet(kind, prev.q[k], o.q[k], Arg(k))
+        BadKept(k) == o.q[k].live /\ ~UnspecifiedKept(kind, prev.q[k], o.q[k], Arg(k))
+        BadSamp(k) == o.q[k].live /\ o.q[k].sampler # Sampler(g[k], d[k])
+        badset  == IF \E k \in Idx(o.q) : BadSet(k)  THEN CHOOSE k \in Idx(o.q) : BadSet(k)  ELSE 0
+        badkept == IF \E k \in Idx(o.q) : BadKept(k) THEN CHOOSE k \in Idx(o.q) : BadKept(k) ELSE 0
+        badsamp == IF \E k \in Idx(o.q) : BadSamp(k) THEN CHOOSE k \in Idx(o.q) : BadSamp(k) ELSE 0
         \* a quantiser that is never executed may be skipped by the update, but must not change otherwise
         baddead == IF \E k \in Idx(o.q) : ~o.q[k].live /\
-                        ~(/\ o.q[k].temp \in {prev.q[k].temp, arg.temp}
-                          /\ (o.q[k].hard = prev.q[k].hard \/ (arg.hard # NoB /\ o.q[k].hard = B(arg.hard)))
-                          /\ (a.a # "upd" => o.q[k].sampler = prev.q[k].sampler))
+                        ~(/\ o.q[k].temp \in {prev.q[k].temp, Arg(k).temp}
+                          /\ (o.q[k].hard = prev.q[k].hard \/ (Arg(k).hard # NoB /\ o.q[k].hard = B(Arg(k).hard)))
+                          /\ (~Hit(k) => o.q[k].sampler = prev.q[k].sampler))
                    THEN 1 ELSE 0
         \* bug-compatibility with the pinned update_softmax_options
         pinnedlike == /\ kind = "mps"
                       /\ \A k \in Idx(o.q) : o.q[k].live =>
                             /\ TH(k)
-                            /\ o.q[k].sampler = (IF a.a = "upd" THEN PinnedSampler(a) ELSE prev.q[k].sampler)
+                            /\ o.q[k].sampler = (IF Hit(k) THEN PinnedSampler(Arg(k)) ELSE prev.q[k].sampler)
     IN  IF badset # 0
         THEN Viol("C11.option-set at " \o where \o ": quantiser " \o ToString(badset) \o " " \o ToString(o.q[badset]))
         ELSE IF badkept # 0 \/ badsamp # 0
         THEN LET k == IF badkept # 0 THEN badkept ELSE badsamp IN
              IF pinnedlike
              THEN Known("known:F08:" \o (IF badkept # 0 THEN "C11.option-kept" ELSE "C11.sampler") \o ": update_softmax_options re-chooses the sampler from the arguments of the current call; unspecified gumbel/disable are lost (" \o where
-                        \o ": sampler " \o o.q[k].sampler \o ", options say " \o Sampler(g, d) \o ")")
+                        \o ": sampler " \o o.q[k].sampler \o ", options say " \o Sampler(g[k], d[k]) \o ")")
              ELSE Viol((IF badkept # 0 THEN "C11.option-kept" ELSE "C11.sampler") \o " at " \o where \o ": quantiser "
                        \o ToString(k) \o " before " \o ToString(prev.q[k]) \o " after " \o ToString(o.q[k])
-                       \o " intended sampler " \o Sampler(g, d))
+                       \o " intended sampler " \o Sampler(g[k], d[k]))
         ELSE IF baddead # 0
         THEN Viol("C11.option-kept at " \o where \o ": a never-executed quantiser changed an unspecified option")
         ELSE OK
@@ -159,38 +169,38 @@ OptVerdict(kind, prev, o, a, g, d, where) ==
 (***************************************************************************)
 (* Predictions (never an alarm)                                            *)
 (***************************************************************************)
-ModelSampler(o) == IF \E k \in Idx(o.q) : o.q[k].live
-                   THEN o.q[CHOOSE k \in Idx(o.q) : o.q[k].live].sampler ELSE "sm"
-
-ModelHard(o) == IF \E k \in Idx(o.q) : o.q[k].live
-                THEN o.q[CHOOSE k \in Idx(o.q) : o.q[k].live].hard ELSE FALSE
+\* sampler / hard flag of the quantiser that owns parameter i (irrelevant for parameters without one)
+SamplerOf(o, i) == IF o.p[i].q # 0 THEN o.q[o.p[i].q].sampler ELSE "sm"
+HardOf(o, i)    == IF o.p[i].q # 0 THEN o.q[o.p[i].q].hard ELSE FALSE
 
 \* alpha of a dummy quantiser: executed or not depending on its place; no prediction
-GradWrong(o, i) == /\ ~Frozen(o.p[i].cls) /\ o.p[i].cls # "qdummy"
-                   /\ (o.p[i].grad # "none") # GradExpected(o.p[i].cls, o.p[i].rg, ModelSampler(o), ModelHard(o))
+GradWrong(o, i) == /\ ~Frozen(o.p[i].cls) /\ o.p[i].cls \notin {"qdummy", "dc"}
+                   /\ (o.p[i].grad # "none") # GradExpected(o.p[i].cls, o.p[i].rg, SamplerOf(o, i), HardOf(o, i))
 
 DriftVerdict(kind, prev, o, e, where) ==
     LET a == e.act
         mc == e.mc
         hasmc == "rg" \in DOMAIN mc
+        BadObj(i) == o.p[i].mo \in DOMAIN mc.rg /\ o.p[i].rg # mc.rg[o.p[i].mo]
+        BadBlk(k) == /\ o.q[k].live /\ o.q[k].mb \in DOMAIN mc.opt
+                     /\ (\/ o.q[k].temp # mc.opt[o.q[k].mb].temp \/ o.q[k].hard # mc.opt[o.q[k].mb].hard
+                         \/ o.q[k].sampler # mc.opt[o.q[k].mb].sampler)
     IN
     IF kind = "pit" /\ o.flags # NextFlags(prev.flags, a)
     THEN Drift("drift:flags at " \o where \o ": " \o ToString(o.flags))
-    ELSE IF kind = "pit" /\ o.ldc # (IF o.flags.dc THEN "T" ELSE "F")
-    THEN Drift("drift:layers' discrete_cost " \o o.ldc \o " at " \o where)
     ELSE IF a.a = "fwdbwd" /\ o.bwd = "ok" /\ \E i \in Idx(o.p) : GradWrong(o, i)
     THEN Drift("drift:gradient support at " \o where \o ": "
                \o ToString(o.p[CHOOSE i \in Idx(o.p) : GradWrong(o, i)]))
     ELSE IF a.a # "fwdbwd" /\ \E i \in Idx(o.p) : o.p[i].grad # "none"
     THEN Drift("drift:stale gradient at " \o where)
-    ELSE IF hasmc /\ \E i \in Idx(o.p) : o.p[i].cls \in DOMAIN mc.rg /\ o.p[i].rg # mc.rg[o.p[i].cls]
+    ELSE IF hasmc /\ \E i \in Idx(o.p) : BadObj(i)
     THEN Drift("drift:state of the replayed edge at " \o where \o ": "
-               \o ToString(o.p[CHOOSE i \in Idx(o.p) : o.p[i].cls \in DOMAIN mc.rg /\ o.p[i].rg # mc.rg[o.p[i].cls]]))
-    ELSE IF hasmc /\ kind = "pit" /\ o.flags # mc.flags
+               \o ToString(o.p[CHOOSE i \in Idx(o.p) : BadObj(i)]))
+    ELSE IF hasmc /\ "flags" \in DOMAIN mc /\ kind = "pit" /\ o.flags # mc.flags
     THEN Drift("drift:flags of the replayed edge at " \o where)
-    ELSE IF hasmc /\ kind # "pit" /\ \E k \in Idx(o.q) : o.q[k].live /\
-                (o.q[k].temp # mc.opt.temp \/ o.q[k].hard # mc.opt.hard \/ o.q[k].sampler # mc.opt.sampler)
-    THEN Drift("drift:options of the replayed edge at " \o where)
+    ELSE IF hasmc /\ kind # "pit" /\ \E k \in Idx(o.q) : BadBlk(k)
+    THEN Drift("drift:options of the replayed edge at " \o where \o ": quantiser "
+               \o ToString(CHOOSE k \in Idx(o.q) : BadBlk(k)))
     ELSE OK
 
 (***************************************************************************)
@@ -198,7 +208,8 @@ DriftVerdict(kind, prev, o, e, where) ==
 (***************************************************************************)
 SameStructure(prev, o) ==
     /\ Len(o.p) = Len(prev.p) /\ Len(o.q) = Len(prev.q)
-    /\ \A i \in Idx(o.p) : o.p[i].id = prev.p[i].id /\ o.p[i].cls = prev.p[i].cls /\ o.p[i].par = prev.p[i].par
+    /\ \A i \in Idx(o.p) : /\ o.p[i].id = prev.p[i].id /\ o.p[i].cls = prev.p[i].cls /\ o.p[i].par = prev.p[i].par
+                            /\ o.p[i].own = prev.p[i].own /\ o.p[i].q = prev.p[i].q
     /\ \A k \in Idx(o.q) : o.q[k].live = prev.q[k].live
 
 StepVerdict(kind, prev, e, g, d, where) ==
@@ -218,8 +229,9 @@ Walk(kind, ev, i, prev, g, d, acc) ==
     IF i > Len(ev) THEN acc
     ELSE LET e  == ev[i]
              a  == e.act
-             g2 == IF kind = "mps" /\ a.a = "upd" /\ a.gumbel # NoB THEN B(a.gumbel) ELSE g
-             d2 == IF kind = "mps" /\ a.a = "upd" /\ a.disable # NoB THEN B(a.disable) ELSE d
+             \* intended gumbel / disable of every quantiser after the call (only MPS updates carry them)
+             g2 == [k \in Idx(g) |-> IF kind = "mps" /\ ArgFor(a, k).gumbel # NoB THEN B(ArgFor(a, k).gumbel) ELSE g[k]]
+             d2 == [k \in Idx(d) |-> IF kind = "mps" /\ ArgFor(a, k).disable # NoB THEN B(ArgFor(a, k).disable) ELSE d[k]]
              v  == StepVerdict(kind, prev, e, g2, d2, "event " \o ToString(i) \o " " \o ToString(a))
          IN  IF Lvl(v) = 3 THEN v
              ELSE Walk(kind, ev, i + 1, e.obs, g2, d2, Worse(acc, v))
@@ -231,8 +243,11 @@ InitVerdict(t) ==
     IN  IF Lvl(v1) = 3 THEN v1
         ELSE IF \E i \in Idx(o.p) : Frozen(o.p[i].cls) /\ o.p[i].rg
         THEN Viol("C11.FrozenNeverTrainable at construction: " \o ToString(o.p[CHOOSE i \in Idx(o.p) : Frozen(o.p[i].cls) /\ o.p[i].rg]))
-        ELSE IF \E k \in Idx(o.q) : o.q[k].live /\ o.q[k].sampler # Sampler(t.gum0, t.dis0)
-        THEN Viol("C11.sampler at construction: " \o ToString(o.q) \o " constructor options say " \o Sampler(t.gum0, t.dis0))
+        ELSE IF Len(t.gum0) # Len(o.q) \/ Len(t.dis0) # Len(o.q)
+        THEN Viol("trace: gum0/dis0 do not match the quantisers")
+        ELSE IF \E k \in Idx(o.q) : o.q[k].live /\ o.q[k].sampler # Sampler(t.gum0[k], t.dis0[k])
+        THEN Viol("C11.sampler at construction: " \o ToString(o.q) \o " constructor options say "
+                  \o ToString([k \in Idx(o.q) |-> Sampler(t.gum0[k], t.dis0[k])]))
         ELSE OK
 
 Check(t) ==
